@@ -16,6 +16,13 @@ import VsgProofs.Lemmas.Extract3Thms  -- WP3
 import VsgProofs.Lemmas.Extract3If    -- WP3
 import VsgProofs.Lemmas.Extract4Thms  -- WP3
 import VsgProofs.Lemmas.Extract5Thms  -- WP3
+import VsgProofs.Lemmas.Extract6Thms  -- WP3b
+import VsgProofs.Lemmas.Extract6Col   -- WP3b
+import VsgProofs.Lemmas.Extract7Thms  -- WP3b
+import VsgProofs.Lemmas.Extract8Thms  -- WP3b
+import VsgProofs.Lemmas.Extract9Line   -- WP3b
+import VsgProofs.Lemmas.Extract9Above  -- WP3b
+import VsgProofs.Lemmas.Extract9Ie     -- WP3b
 import VsgProofs.Properties.C07
 import VsgProofs.Lemmas.BFull2Extract   -- wp2_bfull2
 import VsgProofs.Lemmas.BFull2Indent   -- wp2_bfull2
@@ -1378,5 +1385,251 @@ theorem startingEnding_blank_region_empty :
 
 example : xShow (startingEnding xView xP [8, 1, 3, 1, 5, 0] (processTokens xView.uid [8, 1, 3, 1, 5, 0]) [⟨some ("w", "kw"), 8⟩]
     [⟨some ("w", "close"), 5⟩] false false false) = some [(some 2, 1, [3])] := by decide +kernel
+
+end Vsgm.C18
+
+/-! =====================================================================================
+    WP3b — the extractors of `VsgModel/Engine/Extract6.lean` (proofs: `Lemmas/Extract6*.lean`)
+    ===================================================================================== -/
+namespace Vsgm.C18
+open Vsgm Vsgm.TM Vsgm.TM.Lemmas Vsgm.TM.X Vsgm.TM.X.Lemmas
+
+variable {α : Type}
+
+/-- **get_line_below_line_ending_with_several_possible_tokens** -/
+theorem lineBelowSeveral_sliceExact (uid : α → Option Key) (f : List α) (start : Option Key) (endCs : List Cls)
+    (r : List (Toi α)) (h : lineBelowSeveral f (processTokens uid f) start endCs = .ok r) : ∀ t ∈ r, t.Exact f :=
+  lineBelowSeveral_exact uid f start endCs r h
+
+/-- **get_blank_lines_below_line_ending_with_several_possible_tokens** -/
+theorem blankBelowSeveral_sliceExact (uid : α → Option Key) (f : List α) (start : Option Key) (endCs : List Cls)
+    (r : List (Toi α)) (h : blankBelowSeveral f (processTokens uid f) start endCs = .ok r) : ∀ t ∈ r, t.Exact f :=
+  blankBelowSeveral_exact uid f start endCs r h
+
+/-- **get_consecutive_lines_starting_with_token** -/
+theorem consecutiveLines_sliceExact (uid : α → Option Key) (f : List α) (tok : Option Key) (n : Nat) (r : List (Toi α))
+    (h : consecutiveLines f (processTokens uid f) tok n = .ok r) : ∀ t ∈ r, t.Exact f :=
+  consecutiveLines_exact uid f tok n r h
+
+/-- **get_consecutive_lines_starting_with_token_and_stopping_when_token_starting_line_is_found** -/
+theorem consecutiveLinesStopping_sliceExact (uid : α → Option Key) (f : List α) (search stop : Option Key) (r : List (Toi α))
+    (h : consecutiveLinesStopping f (processTokens uid f) search stop = .ok r) : ∀ t ∈ r, t.Exact f :=
+  fun t ht => (consecutiveLinesStopping_exact uid f search stop r h t ht).1
+
+theorem consecutiveLinesStopping_line (uid : α → Option Key) (f : List α) (search stop : Option Key) (r : List (Toi α))
+    (h : consecutiveLinesStopping f (processTokens uid f) search stop = .ok r) :
+    ∀ t ∈ r, ∃ s : Nat, t.start = some (s : Int) ∧ t.line = lineNo uid f s :=
+  fun t ht => (consecutiveLinesStopping_exact uid f search stop r h t ht).2
+
+/-- **get_column_of_token_index** (an int, not a region): whenever it returns, the column is the
+    summed value length of the tokens from one past some line break of the file up to the token … -/
+theorem columnOf_anchor (V : View α) (f : List α) (i : Int) (c : Nat)
+    (h : columnOf V f (processTokens V.uid f) i = .ok c) :
+    ∃ p : Nat, p ∈ (processTokens V.uid f).get (some crKey) ∧ c = ((pySlice f ((p : Int) + 1) i).map V.len).sum :=
+  columnOf_spec V f i c h
+
+/-- … and for a token that is not on the first line that line break is the LAST one before the
+    token: the column is the width of the text between the beginning of the token's line and the
+    token -/
+theorem columnOf_spec_partial (V : View α) (f : List α) (i : Nat) (c : Nat)
+    (h : columnOf V f (processTokens V.uid f) (i : Int) = .ok c)
+    (h2 : ∃ n, (processTokens V.uid f).lineOf (i : Int) = .ok n ∧ 2 ≤ n) :
+    ∃ p : Nat, p < i ∧ p ∈ (processTokens V.uid f).get (some crKey) ∧
+      (∀ q ∈ (processTokens V.uid f).get (some crKey), q < i → q ≤ p) ∧
+      c = ((pySlice f ((p : Int) + 1) (i : Int)).map V.len).sum :=
+  columnOf_lastCr V f i c h h2
+
+/-- the excluded case is real: on the FIRST line `lCarriageReturns[line - 2]` is
+    `lCarriageReturns[-1]`, the last line break of the file, the slice is empty and every token of
+    the first line has column 0 (here the third token of `kw ( id ; …`, true column 3) -/
+theorem columnOf_first_line : columnOf xView xFile (processTokens xView.uid xFile) 3 = .ok 0 := by
+  decide +kernel
+
+/-! #### non-vacuity (WP3b) -/
+
+example : xShow (lineBelowSeveral yFile (processTokens xView.uid yFile) (some ("w", "id")) [⟨some ("w", "open"), 4⟩])
+    = some [(some 2, 2, [8])] := by decide +kernel
+example : xShow (blankBelowSeveral [3, 8, 0, 7, 0, 3, 0] (processTokens xView.uid [3, 8, 0, 7, 0, 3, 0]) (some ("w", "id")) [⟨some ("w", "kw"), 8⟩])
+    = some [(some 3, 1, [7, 0])] := by decide +kernel
+example : xShow (consecutiveLines xFile (processTokens xView.uid xFile) (some ("w", "close")) 1)
+    = some [(some 7, 2, [5, 6])] := by decide +kernel
+example : xShow (consecutiveLinesStopping [3, 0, 5, 0, 8, 0] (processTokens xView.uid [3, 0, 5, 0, 8, 0]) (some ("w", "close")) (some ("w", "kw")))
+    = some [(some 2, 2, [5, 0, 8])] := by decide +kernel
+example : columnOf xView xFile (processTokens xView.uid xFile) 8 = .ok 1 := by decide +kernel
+
+end Vsgm.C18
+
+/-! =====================================================================================
+    WP3b, second part — `VsgModel/Engine/Extract7.lean` (proofs: `Lemmas/Extract7Thms.lean`)
+    ===================================================================================== -/
+namespace Vsgm.C18
+open Vsgm Vsgm.TM Vsgm.TM.Lemmas Vsgm.TM.X Vsgm.TM.X.Lemmas
+
+variable {α : Type}
+
+/-- **get_tokens_in_declarative_parts** (eight `get_tokens_bounded_by` calls, `extract_tokens(1, …)` on
+    two of them, merged by start position): every region is the slice at its start — stale index or
+    not, because `get_tokens_bounded_by` reads the start token at the recorded position -/
+theorem declarativeParts_sliceExact (V : View α) (f : List α) (ix : Index) (K : DeclKeys) (r : List (Toi α))
+    (h : declarativeParts V f ix K = .ok r) : ∀ t ∈ r, t.Exact f :=
+  declarativeParts_exact V f ix K r h
+
+def xNo : Option Key × Option Key := (some ("w", "absent"), some ("w", "absent"))
+
+example : xShow (declarativeParts xView wFile (processTokens xView.uid wFile)
+      { prot := (some ("w", "open"), some ("w", "close")), arch := (some ("w", "open"), some ("w", "close")),
+        pkgBody := xNo, subp := xNo, pkg := xNo, process := xNo, entity := xNo, block := xNo })
+    = some [(some 0, 1, [4, 3, 6, 5]), (some 1, 1, [3, 6, 5])] := by decide +kernel
+
+end Vsgm.C18
+
+/-! =====================================================================================
+    WP3b, third part — `VsgModel/Engine/Extract8.lean` (proofs: `Lemmas/Extract8Thms.lean`)
+    ===================================================================================== -/
+namespace Vsgm.C18
+open Vsgm Vsgm.TM Vsgm.TM.Lemmas Vsgm.TM.X Vsgm.TM.X.Lemmas
+
+variable {α : Type}
+
+/-- **get_blank_lines_above_line_starting_with_use_clause**: every region is the slice at its start;
+    its recorded line is the line of a matched token; the tokens whose values are stored as
+    `previous_library` / `current_library` are tokens of the file -/
+theorem blankAboveUseClause_sliceExact (uid : α → Option Key) (f : List α) (cs : List Cls) (semis : List (Option Key))
+    (lib : Option Key) (r : List (Toi α × Option Nat × Nat))
+    (h : blankAboveUseClause f (processTokens uid f) cs semis lib = .ok r) : ∀ x ∈ r, x.1.Exact f :=
+  fun x hx => (blankAboveUseClause_exact uid f cs semis lib r h x hx).1
+
+theorem blankAboveUseClause_line (uid : α → Option Key) (f : List α) (cs : List Cls) (semis : List (Option Key))
+    (lib : Option Key) (r : List (Toi α × Option Nat × Nat))
+    (h : blankAboveUseClause f (processTokens uid f) cs semis lib = .ok r) :
+    ∀ x ∈ r, (∃ i ∈ idxsOfList (processTokens uid f) cs, x.1.line = lineNo uid f i) ∧
+      (∀ p, x.2.1 = some p → p < f.length) ∧ x.2.2 < f.length :=
+  fun x hx => (blankAboveUseClause_exact uid f cs semis lib r h x hx).2
+
+example : (blankAboveUseClause [4, 3, 0, 7, 0, 8, 3, 0] (processTokens xView.uid [4, 3, 0, 7, 0, 8, 3, 0]) [⟨some ("w", "kw"), 8⟩]
+      [some ("w", "semi")] (some ("w", "id"))).toOption.map (fun r => r.map fun x => (x.1.start, x.1.toks, x.2.2))
+    = some [(some 2, [0, 7], 6)] := by decide +kernel
+
+end Vsgm.C18
+
+/-! =====================================================================================
+    WP3b, fourth part — recorded line numbers of the line-below / line-above / blank-lines-below
+    families against the line of the recorded start (proofs: `Lemmas/Extract9*.lean`)
+    ===================================================================================== -/
+namespace Vsgm.C18
+open Vsgm Vsgm.TM Vsgm.TM.Lemmas Vsgm.TM.X Vsgm.TM.X.Lemmas
+
+variable {α : Type}
+
+/-- the token after the `k`-th line break of a file (counted from 0) is on line `k + 2` -/
+theorem lineNo_after_lineBreak (uid : α → Option Key) (f : List α) (k x : Nat)
+    (hk : ((processTokens uid f).get (some crKey))[k]? = some x) : lineNo uid f (x + 1) = k + 2 :=
+  lineNo_after_cr uid f k x hk
+
+/-- **get_line_succeeding_line** (asked about a line ≥ 1): the recorded line is the line of the start -/
+theorem lineSucceeding_line (uid : α → Option Key) (f : List α) (line num : Nat) (t : Toi α) (h1 : 1 ≤ line)
+    (h : lineSucceeding f (processTokens uid f) line num = .ok (some t)) :
+    ∃ s : Nat, t.start = some (s : Int) ∧ t.line = lineNo uid f s :=
+  lineSucceeding_lineOfStart uid f line num t h1 h
+
+/-- **get_line_below_line_ending_with_token** -/
+theorem lineBelowLineEndingWith_line (uid : α → Option Key) (f : List α) (cs : List Cls) (r : List (Toi α))
+    (h : lineBelowLineEndingWith f (processTokens uid f) cs = .ok r) :
+    ∀ t ∈ r, ∃ s : Nat, t.start = some (s : Int) ∧ t.line = lineNo uid f s :=
+  lineBelowLineEndingWith_lineOfStart uid f cs r h
+
+/-- **get_line_below_line_ending_with_token_with_hierarchy** -/
+theorem lineBelowLineEndingWithHier_line (uid : α → Option Key) (f : List α) (hier : α → Option Int) (cs : List Cls)
+    (lh : List Int) (r : List (Option (Toi α)))
+    (h : lineBelowLineEndingWithHier f (processTokens uid f) hier cs lh = .ok r) :
+    ∀ t, some t ∈ r → ∃ s : Nat, t.start = some (s : Int) ∧ t.line = lineNo uid f s :=
+  lineBelowLineEndingWithHier_lineOfStart uid f hier cs lh r h
+
+/-- **get_line_below_line_ending_with_several_possible_tokens** -/
+theorem lineBelowSeveral_line (uid : α → Option Key) (f : List α) (start : Option Key) (endCs : List Cls) (r : List (Toi α))
+    (h : lineBelowSeveral f (processTokens uid f) start endCs = .ok r) :
+    ∀ t ∈ r, ∃ s : Nat, t.start = some (s : Int) ∧ t.line = lineNo uid f s :=
+  lineBelowSeveral_lineOfStart uid f start endCs r h
+
+/-- **get_blank_lines_below_line_ending_with_token**: the recorded line is the line of the matched
+    token, ONE LESS than the line the region starts on -/
+theorem blankBelow_line (uid : α → Option Key) (f : List α) (hier : α → Option Int) (cs : List Cls)
+    (lh : Option (List Int)) (r : List (Toi α)) (h : blankBelow f (processTokens uid f) hier cs lh = .ok r) :
+    ∀ t ∈ r, ∃ s : Nat, t.start = some (s : Int) ∧ t.line + 1 = lineNo uid f s := by
+  unfold blankBelow at h
+  simp only [bind_ok] at h
+  obtain ⟨idxs, _, h⟩ := h
+  exact blankBelowIdx_lineOfStart uid f idxs r h
+
+/-- **get_blank_lines_below_line_ending_with_several_possible_tokens** -/
+theorem blankBelowSeveral_line (uid : α → Option Key) (f : List α) (start : Option Key) (endCs : List Cls) (r : List (Toi α))
+    (h : blankBelowSeveral f (processTokens uid f) start endCs = .ok r) :
+    ∀ t ∈ r, ∃ s : Nat, t.start = some (s : Int) ∧ t.line + 1 = lineNo uid f s :=
+  blankBelowIdx_lineOfStart uid f _ r h
+
+/-- **get_line_preceding_line** with `bSkipComments`: the recorded line is ONE MORE than the line
+    the region starts on -/
+theorem linePrecedingSkip_line (uid : α → Option Key) (f : List α) (line : Nat) (t : Toi α)
+    (h : linePrecedingSkip f (processTokens uid f) line = .ok t) :
+    ∃ s : Nat, t.start = some (s : Int) ∧ t.line = lineNo uid f s + 1 :=
+  linePrecedingSkip_lineOfStart uid f line t h
+
+/-- **get_line_preceding_line** without it, partial: asked for a line that has `n` lines above it
+    (`n + 1 ≤ line`) the recorded line is `n` more than the line the region starts on.  Otherwise:
+    `linePreceding_line_first_line` -/
+theorem linePreceding_line_partial (uid : α → Option Key) (f : List α) (line n : Nat) (t : Toi α) (hn : n + 1 ≤ line)
+    (h : linePreceding f (processTokens uid f) line n = .ok t) :
+    ∃ s : Nat, t.start = some (s : Int) ∧ t.line = lineNo uid f s + n :=
+  linePreceding_lineOfStart uid f line n t hn h
+
+/-- asked about line 1: start 0 (line 1), recorded line 1, not `1 + 1` -/
+theorem linePreceding_line_first_line :
+    (linePreceding yFile (processTokens xView.uid yFile) 1 1).toOption.map (fun t => (t.start, t.line)) = some (some 0, 1) ∧
+      lineNo xView.uid yFile 0 = 1 := by
+  decide +kernel
+
+/-- **get_line_above_line_starting_with_token**, both modes: the recorded line is the line of the
+    matched token, ONE MORE than the line the region starts on (a token that starts a line is on
+    line 2 or later) -/
+theorem lineAbove_line (uid : α → Option Key) (f : List α) (cs : List Cls) (incl : Bool) (r : List (Toi α))
+    (h : lineAbove f (processTokens uid f) cs incl = .ok r) :
+    ∀ t ∈ r, ∃ s : Nat, t.start = some (s : Int) ∧ t.line = lineNo uid f s + 1 :=
+  lineAbove_lineOfStart uid f cs incl r h
+
+/-- **get_line_above_line_starting_with_token_with_hierarchy** -/
+theorem lineAboveHier_line (uid : α → Option Key) (f : List α) (hier : α → Option Int) (cs : List Cls) (lh : List Int)
+    (incl : Bool) (r : List (Toi α)) (h : lineAboveHier f (processTokens uid f) hier cs lh incl = .ok r) :
+    ∀ t ∈ r, ∃ s : Nat, t.start = some (s : Int) ∧ t.line = lineNo uid f s + 1 :=
+  lineAboveHier_lineOfStart uid f hier cs lh incl r h
+
+example : ((processTokens xView.uid yFile).get (some crKey))[1]? = some 3 := by decide +kernel
+
+end Vsgm.C18
+
+/-! =====================================================================================
+    WP3b, fifth part — the line recorded by `get_interface_elements_between_tokens` (`Lemmas/Extract9Ie.lean`)
+    ===================================================================================== -/
+namespace Vsgm.C18
+open Vsgm Vsgm.TM Vsgm.TM.Lemmas Vsgm.TM.X Vsgm.TM.X.Lemmas
+
+variable {α : Type}
+
+/-- **get_interface_elements_between_tokens**: every element carries the line of its first token —
+    the loop counts the line breaks it walks over — provided `isinstance(·, parser.carriage_return)`
+    agrees with the index key of the token and the opening token is not itself a line break -/
+theorem interfaceElements_line (V : View α) (P : PCls) (semi : Nat) (f : List α) (a b : Option Key) (r : List (Toi α))
+    (hcr : ∀ x, V.inst x P.cr = decide (V.uid x = some crKey))
+    (hopen : ∀ s ∈ ((processTokens V.uid f).pairIndexes a b).1, ∀ x, f[s]? = some x → V.uid x ≠ some crKey)
+    (h : interfaceElements V P semi f (processTokens V.uid f) a b = .ok r) :
+    ∀ t ∈ r, ∃ s : Nat, t.start = some (s : Int) ∧ t.line = lineNo V.uid f s :=
+  interfaceElements_lineOfStart V P semi f a b r hcr hopen h
+
+/-- the hypotheses are satisfiable: the view of the examples, and an element on the second line -/
+example : ∀ x, xView.inst x xP.cr = decide (xView.uid x = some crKey) := by
+  intro x
+  rcases x with _ | _ | _ | _ | _ | _ | _ | _ | _ | x <;> simp [xView, xP, crKey, wsKey, commentKey, blankKey]
+
+example : xShow (interfaceElements xView xP 6 [4, 0, 3, 5, 0] (processTokens xView.uid [4, 0, 3, 5, 0]) (some ("w", "open")) (some ("w", "close")))
+    = some [(some 2, 2, [3])] ∧ lineNo xView.uid [4, 0, 3, 5, 0] 2 = 2 := by decide +kernel
 
 end Vsgm.C18
